@@ -48,8 +48,74 @@ RULE = ("histories of 2..25 evaluation / reasoning calls with VARYING data over 
         "law (active == latest successful verdict, untouched == unchanged) is the model's theorem and is enforced by the correspondence of flags AND evaluated sequences")
 
 
+# ---- graphs from which causaloids have been REMOVED again (the Coq model covers add-only graphs; here the recount oracle, which is
+# the property itself, is applied to the implementation's own output: harness family causalrm) -------------------------------------
+def gen_removed(run):
+    rng = run.rng; cases = []
+    n = 2500 if run.thorough else 300
+    for _ in range(n):
+        g = Gen(rng)
+        tree = g.tree(1, 2, singles_only=True, nmax=rng.choice([3, 4, 6, 8]))
+        nn = tree[2]
+        if nn < 2: continue
+        k = rng.randrange(1, min(3, nn))
+        removed = rng.sample(range(nn), k)
+        live = [i for i in range(nn) if i not in removed]
+        calls = []
+        for _ in range(rng.randrange(1, 6)):
+            data = data_for(rng, g, 14, p_true=rng.choice([0.3, 0.6, 0.9, 1.0]), p_err=rng.choice([0, 0.05]))
+            code = rng.choice([1, 2, 2, 0, 5])
+            a = rng.choice(live) if rng.random() < 0.9 else rng.randrange(0, nn)
+            calls.append(call(code, a, 0, None, data if code != 2 else data[:1]))
+        cases.append(Case("causalrm", list(tree) + [len(removed)] + removed, [tuple(c) for c in calls], {"removed": removed, "n": nn}))
+    return cases
+
+
+def oracle_removed(case, impl, spec):
+    try:
+        toks = [int(t) for t in impl.split()]
+    except ValueError:
+        return f"unparsable output {impl[:60]!r}"
+    if toks == [-999]: return "the harness call panicked outside a reasoning call"
+    a = case.ints()
+    top, p = parse_tree(a, 0)
+    nrem = a[p]; removed = set(a[p + 1:p + 1 + nrem]); p += 1 + nrem
+    calls = parse_calls(a, p)
+    segs = split_out(toks, calls)
+    if segs is None or len(segs) != len(calls): return "output does not match the calls"
+    nlive = case.meta["n"] - len(removed)
+    for i, s in enumerate(segs):
+        flags = s["flags"]
+        if len(flags) != 1 + nlive: return f"call {i}: {len(flags) - 1} live members reported, {nlive} expected"
+        mem = flags[1:]; cnt = sum(mem); ag = s["aggs"]
+        if flags[0] != (1 if cnt > 0 else 0): return f"after call {i}: graph-wrapping causaloid active={flags[0]} but live members {mem} (removed {sorted(removed)})"
+        if len(ag) < 3: return "aggregates missing"
+        if ag[0] != (1 if cnt == nlive else 0): return f"after call {i}: all_active={ag[0]} but {cnt}/{nlive} live members active (removed {sorted(removed)})"
+        if ag[1] != fbits(float(cnt)): return f"after call {i}: number_active differs from the recount {cnt} over the live members {mem} (removed {sorted(removed)})"
+        if nlive > 0 and ag[2] != fbits(cnt / nlive * 100.0): return f"after call {i}: percent_active differs from {cnt}/{nlive}*100"
+    return None
+
+
+def removed_phase(run, d, bins, cases_unused):
+    cases = gen_removed(run)
+    d2 = Differential(run, bins, None, None, oracle=oracle_removed, harness_head=lambda c: "causalrm", nontrivial=lambda c: len(c.ops) >= 2)
+    for i in range(0, len(cases), 500):
+        d2.process(cases[i:i + 500])
+    d2.finish()
+    run.cov["graphs_with_removed_causaloids"] = len(cases)
+
+
 def main():
-    run_property("C11", PROPS, gen_cases, CHECKS, RULE)
+    run_property("C11", PROPS, gen_cases, CHECKS, RULE + " SECOND PHASE: graphs of singletons from which 1-2 causaloids were removed again (remove_causaloid) before reasoning: wrapper-active and the aggregates must equal a recount over the LIVE members (oracle on the implementation's own output; the Coq model covers add-only graphs)", cross=removed_phase)
 
 
-replay = mk_replay("C11", CHECKS)
+_replay = mk_replay("C11", CHECKS)
+
+
+def replay(path):
+    import json
+    dj = json.load(open(path))
+    if dj.get("case", {}).get("family") == "causalrm":
+        run = Run("C11"); ensure_driver(); bins = builds(run)
+        return generic_replay(Differential(run, bins, None, None, oracle=oracle_removed, harness_head=lambda c: "causalrm"), path)
+    return _replay(path)
